@@ -108,6 +108,7 @@ class Interp:
         self._alias = {}
         self._keep = []         # keeps records alive so that id()-based region names stay unique
         self.cur_obj = None
+        self.struct_init = {}       # name of a structure of a library -> initialiser(it, record) run when a local of that type is declared
         self.ctor_hooks = {}        # class-name prefix -> construction(it, f, st, args) -> record / pointer
         self.delete_hooks = []      # called with (it, f, st, record) when an object is deleted
         self.raii = {}              # class-name prefix -> (on construction(it, f, st, args) -> object, on scope exit(it, f, st, object))
@@ -453,6 +454,8 @@ class Interp:
 
     def construct(self, f, st, env):
         cls = st.get('ctor') or ''
+        if cls == '(anonymous)' and st.get('t'):
+            cls = st['t']           # a typedef of an unnamed structure (fd_set)
         args = [self.ev(f, a, env) for a in st.get('args', [])]
         hk = next((k_ for k_ in self.ctor_hooks if cls.startswith(k_)), None)
         if hk is not None:
@@ -508,6 +511,8 @@ class Interp:
             if not args and cls and 'std::' not in cls:
                 rec = {'__cls__': cls, '__open__': True}     # a plain struct from a system header
                 self._keep.append(rec)
+                if cls.replace('struct ', '') in self.struct_init:
+                    self.struct_init[cls.replace('struct ', '')](self, rec)
                 return self.ref(rec)
             return None
         tg = [g for g in self.prog.by_usr.get(st.get('usr'), ()) if g.d.get('ctor') and g.body is not None]
@@ -785,6 +790,8 @@ class Interp:
                 elif 'init' not in d and '[' not in ct and '*' not in ct and (ct in self.prog.classes or ct.replace('struct ', '') not in WIDTH and not ct.startswith(('unsigned', 'int', 'long', 'short', 'char', 'bool', 'size_t', 'uint', 'float', 'double'))):
                     rec = self.new_record(ct) if ct in self.prog.classes else {'__cls__': ct, '__open__': True}
                     self._keep.append(rec)
+                    if ct.replace('struct ', '') in self.struct_init:
+                        self.struct_init[ct.replace('struct ', '')](self, rec)
                     env[d['d']] = self.ref(rec)
                 elif '[' in ct and ('init' not in d or ((f.s(d['init']) or {}).get('k') == 'CXXConstructExpr' and not (f.s(d['init']) or {}).get('args'))) and ct.split('[')[0].replace('struct ', '').strip() not in WIDTH and '*' not in ct.split('[')[0] and ct.split('[')[1].split(']')[0].isdigit():
                     # an array of records (struct iovec rbuf[2]): each cell refers to a record of its own
@@ -981,7 +988,11 @@ class Interp:
         if x is None:
             return None
         if arrow:
-            return self.record_of(self.ev(f, e, env))
+            v_ = self.ev(f, e, env)
+            if isinstance(v_, P) and v_.r in self.freed and isinstance(self.mem.get(v_.r), dict):
+                self.fault(f, x, 'a member of an object is accessed after the object was deleted / returned to its pool (invalid memory access)')
+                raise _Abort()
+            return self.record_of(v_)
         if x['k'] == 'CXXThisExpr':
             return self.this
         if x['k'] == 'MemberExpr' and x.get('n') == '':
@@ -1060,6 +1071,13 @@ class Interp:
         if k in q_CASTS:
             ck = st.get('ck')
             if ck == 'ToVoid':
+                # (void)expr: the value is dropped, the side effects are not (FD_SET and friends expand to a cast to void of an assignment)
+                for x in f.walk(st['ch'][0]):
+                    sx = f.stmts[x]
+                    if sx['k'] == 'CompoundAssignOperator' or sx['k'] in q.CALL_KINDS or (sx['k'] == 'BinaryOperator' and sx.get('op') == '=') or \
+                            (sx['k'] == 'UnaryOperator' and sx.get('op') in ('++', '--')):
+                        self.ev(f, st['ch'][0], env)
+                        break
                 return None
             if ck in ('LValueToRValue',):
                 return self.read(f, st, self.lv(f, st['ch'][0], env), env)
